@@ -9,8 +9,17 @@
 //        iterations, t is not NaN, lies in [-pi, pi], and if strictly inside no other t of a 20001-point grid
 //        refined by golden-section search is closer by more than 1e-9 m.  Prints `holds` / `fails <detail>`.
 //   relkf-<class> <9 params>   the same oracle on inputs of a class that is known to fail (none at present)
+//   relkt <n> <r phi z>*n      through the public API: Track::try_from(cluster) -> t_inner() / t_outer() must be the
+//                              closest-approach parameters of the innermost / outermost point (same oracle, with the
+//                              tolerance and iteration count the LIBRARY passes)
+//   relkc <n> <r phi z>*n      the same, hook-free: the clusters are those cluster_spacepoints finds in the point set
+//   relkv <k> <x0 y0 z0 r phi0 h t_inner t_outer>*k     find_vertices -> every (track, t) of the primary vertex:
+//                              t is the closest-approach parameter of that track to the vertex position
 use crate::util::*;
-use alpha_g_physics::reconstruction::{verif_helix_at, verif_helix_closest_t};
+use crate::c14::{case_points, family, parse_floats, points_of, track_params, P3};
+use alpha_g_physics::reconstruction::{
+    cluster_spacepoints, find_vertices, verif_helix_at, verif_helix_closest_t, Cluster, Track,
+};
 use alpha_g_physics::SpacePoint;
 use std::f64::consts::PI;
 use uom::si::angle::radian;
@@ -128,35 +137,153 @@ pub fn brute_min(hp: [f64; 6], q: [f64; 3]) -> (f64, f64) {
     best
 }
 
+/// the property oracle for a reported t, on the implementation alone
+pub fn oracle_t(hp: [f64; 6], p: SpacePoint, t: f64) -> String {
+    if t.is_nan() {
+        return "fails nan".to_string();
+    }
+    if !(t >= -PI && t <= PI) {
+        return format!("fails out-of-range t={}", bits(t));
+    }
+    if t > -PI && t < PI {
+        let q = [p.x().get::<meter>(), p.y().get::<meter>(), p.z.get::<meter>()];
+        let d_impl = dist(hp, q, t);
+        let (tb, db) = brute_min(hp, q);
+        if !(d_impl <= db + 1e-9) {
+            return format!(
+                "fails not-closest t={} d={:e} t_brute={} d_brute={:e} excess={:e}",
+                bits(t),
+                d_impl,
+                bits(tb),
+                db,
+                d_impl - db
+            );
+        }
+    }
+    "holds".to_string()
+}
+
 /// the property oracle, on the implementation alone
 pub fn oracle(hp: [f64; 6], sp: [f64; 3]) -> String {
     let r = catch(move || {
         let p = spoint(sp[0], sp[1], sp[2]);
         let t = verif_helix_closest_t(hp, p, f64::EPSILON, 20);
-        if t.is_nan() {
-            return "fails nan".to_string();
-        }
-        if !(t >= -PI && t <= PI) {
-            return format!("fails out-of-range t={}", bits(t));
-        }
-        if t > -PI && t < PI {
-            let q = [p.x().get::<meter>(), p.y().get::<meter>(), p.z.get::<meter>()];
-            let d_impl = dist(hp, q, t);
-            let (tb, db) = brute_min(hp, q);
-            if !(d_impl <= db + 1e-9) {
-                return format!(
-                    "fails not-closest t={} d={:e} t_brute={} d_brute={:e} excess={:e}",
-                    bits(t),
-                    d_impl,
-                    bits(tb),
-                    db,
-                    d_impl - db
-                );
-            }
-        }
-        "holds".to_string()
+        oracle_t(hp, p, t)
     });
     r.unwrap_or_else(|| "fails panic".to_string())
+}
+
+/// helix parameters inside the quantifier of C16
+fn in_domain(hp: [f64; 6]) -> bool {
+    // exploration switch: C16_NO_DOMAIN=1 applies the oracle to every fitted helix (reported as out-of-domain observations)
+    if std::env::var_os("C16_NO_DOMAIN").is_some() {
+        return true;
+    }
+    hp[0].abs() <= 3.0 && hp[1].abs() <= 3.0 && hp[2].abs() <= 3.0 && hp[3] >= 0.03 && hp[3] <= 5.0 && hp[5].abs() <= 1e2
+}
+
+fn domain_class(hp: [f64; 6]) -> &'static str {
+    if in_domain(hp) {
+        "track"
+    } else if hp[3] < 0.0 {
+        "track-outside-domain:negative-radius"
+    } else if hp[3] > 5.0 {
+        "track-outside-domain:radius>5m"
+    } else {
+        "track-outside-domain:other"
+    }
+}
+
+/// t_inner / t_outer of one fitted cluster against its innermost / outermost point
+fn check_cluster(sps: &[SpacePoint]) -> (String, &'static str) {
+    // three_template_points: minmax_by_key(r): first minimal element, last maximal element
+    let mut first = 0;
+    let mut last = 0;
+    for (i, p) in sps.iter().enumerate() {
+        if p.r < sps[first].r {
+            first = i;
+        }
+        if p.r >= sps[last].r {
+            last = i;
+        }
+    }
+    match Track::try_from(Cluster::verif_from_points(sps.to_vec())) {
+        Err(_) => ("holds".to_string(), "noinit"),
+        Ok(tr) => {
+            let hp = tr.verif_params();
+            if !hp.iter().all(|x| x.is_finite()) {
+                return ("holds".to_string(), "nonfinite-params(C14)");
+            }
+            if !in_domain(hp) {
+                // e.g. the fit of (nearly) collinear points is a helix of enormous radius: not a helix of the
+                // quantifier of C16 (centre within +-3 m, radius 0.03-5 m, |pitch| <= 1e2 m)
+                return ("holds".to_string(), domain_class(hp));
+            }
+            for (t, p, which) in [(tr.t_inner(), sps[first], "t_inner"), (tr.t_outer(), sps[last], "t_outer")] {
+                let o = oracle_t(hp, p, t);
+                if o != "holds" {
+                    let ps: Vec<String> = hp.iter().map(|x| bits(*x)).collect();
+                    return (format!("{o} at {which} helix={}", ps.join(",")), "fail");
+                }
+            }
+            ("holds".to_string(), "track")
+        }
+    }
+}
+
+/// relkt: the point set is the cluster (hook Cluster::verif_from_points)
+fn oracle_track(pts: Vec<P3>) -> (String, &'static str) {
+    let r = catch(move || check_cluster(&points_of(&pts)));
+    r.unwrap_or_else(|| ("fails panic".to_string(), "panic"))
+}
+
+/// relkc: hook-free: the clusters are those cluster_spacepoints finds in the point set
+fn oracle_clusters(pts: Vec<P3>) -> (String, String) {
+    let r = catch(move || {
+        let res = cluster_spacepoints(points_of(&pts));
+        let mut classes: Vec<&'static str> = Vec::new();
+        for c in res.clusters {
+            let sps: Vec<SpacePoint> = c.iter().copied().collect();
+            let (o, class) = check_cluster(&sps);
+            if o != "holds" {
+                return (o, "fail".to_string());
+            }
+            classes.push(class);
+        }
+        classes.sort();
+        classes.dedup();
+        ("holds".to_string(), if classes.is_empty() { "no-cluster".to_string() } else { classes.join("+") })
+    });
+    r.unwrap_or_else(|| ("fails panic".to_string(), "panic".to_string()))
+}
+
+/// the t reported with every track of the primary vertex (public API)
+fn oracle_vertex(trs: Vec<[f64; 8]>) -> (String, &'static str) {
+    let r = catch(move || {
+        let tracks: Vec<Track> = trs
+            .iter()
+            .map(|p| Track::verif_from_params([p[0], p[1], p[2], p[3], p[4], p[5]], p[6], p[7]))
+            .collect();
+        let res = find_vertices(tracks);
+        match res.primary {
+            None => ("holds".to_string(), "no-primary"),
+            Some(v) => {
+                let (x, y, z) = (v.position.x, v.position.y, v.position.z);
+                let p = SpacePoint { r: x.hypot(y), phi: y.atan2(x), z };
+                for (tr, t) in &v.tracks {
+                    if !in_domain(tr.verif_params()) {
+                        continue;
+                    }
+                    let o = oracle_t(tr.verif_params(), p, *t);
+                    if o != "holds" {
+                        return (o, "fail");
+                    }
+                }
+                ("holds".to_string(), "primary")
+            }
+        }
+    });
+    r.unwrap_or_else(|| ("fails panic".to_string(), "panic"))
 }
 
 pub fn observe_line(line: &str) -> Option<String> {
@@ -176,6 +303,23 @@ pub fn observe_line(line: &str) -> Option<String> {
     if (f[0] == "relk" || f[0].starts_with("relkf-")) && f.len() == 10 {
         let v: Vec<f64> = f[1..].iter().map(|s| unbits(s)).collect::<Option<Vec<_>>>()?;
         return Some(oracle([v[0], v[1], v[2], v[3], v[4], v[5]], [v[6], v[7], v[8]]));
+    }
+    if f[0] == "relkt" || f[0] == "relkc" {
+        let n: usize = f.get(1)?.parse().ok()?;
+        if f.len() != 2 + 3 * n {
+            return None;
+        }
+        let v = parse_floats(&f[2..])?;
+        let pts: Vec<P3> = v.chunks(3).map(|c| [c[0], c[1], c[2]]).collect();
+        return Some(if f[0] == "relkt" { oracle_track(pts).0 } else { oracle_clusters(pts).0 });
+    }
+    if f[0] == "relkv" {
+        let n: usize = f.get(1)?.parse().ok()?;
+        if f.len() != 2 + 8 * n {
+            return None;
+        }
+        let v = parse_floats(&f[2..])?;
+        return Some(oracle_vertex(v.chunks(8).map(|c| [c[0], c[1], c[2], c[3], c[4], c[5], c[6], c[7]]).collect()).0);
     }
     None
 }
@@ -403,5 +547,45 @@ pub fn run(tier: &str, seed: u64, s: &mut Sink) {
         };
         let obs = oracle(hp, sp);
         s.put(&case_rel("relk", hp, sp), &obs, &label, hp[5].abs() >= f64::EPSILON);
+    }
+    // the same property where the library reports t through its public API
+    let (n_trk, n_vtx) = if tier == "thorough" { (3000, 3000) } else { (250, 300) };
+    for _ in 0..n_trk {
+        let n = r.range(3, 40) as usize;
+        let (mut pts, fam) = family(&mut r, n);
+        if pts.len() < 3 {
+            continue;
+        }
+        pts.truncate(60);
+        let (obs, class) = oracle_track(pts.clone());
+        s.put(&case_points("relkt", &pts), &obs, &format!("rel-track:{fam}:{class}"), class == "track");
+    }
+    for _ in 0..n_trk / 2 {
+        let n = r.range(13, if tier == "thorough" { 400 } else { 120 }) as usize;
+        let (pts, fam) = family(&mut r, n);
+        let (obs, class) = oracle_clusters(pts.clone());
+        s.put(&case_points("relkc", &pts), &obs, &format!("rel-clusters:{fam}:{class}"), class.contains("track"));
+    }
+    for _ in 0..n_vtx {
+        let k = r.range(2, 8) as usize;
+        let shared_z = uniform(&mut r, -1.0, 1.0);
+        let mut trs: Vec<[f64; 8]> = Vec::new();
+        for _ in 0..k {
+            let mut t = track_params(&mut r);
+            let zb = alpha_g_physics::reconstruction::verif_helix_closest_to_beamline([t[0], t[1], t[2], t[3], t[4], t[5]])
+                .z
+                .get::<meter>();
+            t[2] = (t[2] - zb + shared_z + uniform(&mut r, -0.02, 0.02)).clamp(-3.0, 3.0);
+            trs.push(t);
+        }
+        let (obs, class) = oracle_vertex(trs.clone());
+        let mut c = format!("relkv {}", trs.len());
+        for t in &trs {
+            for x in t {
+                c.push(' ');
+                c.push_str(&bits(*x));
+            }
+        }
+        s.put(&c, &obs, &format!("rel-vertex:{class}"), class == "primary");
     }
 }
